@@ -17,6 +17,7 @@ type loopCtx struct {
 	rangeV  *Term // the ranged value evaluated once ($range)
 	keyT    types.Type
 	rangeT  types.Type
+	outer   *loopCtx // the enclosing cut loop of the same function, for $outervisited
 }
 
 // modSet is what a loop body may modify on a path that reaches the back edge.
@@ -25,9 +26,12 @@ type modSet struct {
 	heaps  map[string]Sort
 	all    bool
 	allocs bool
+	calls  map[string]bool // names of functions that may be called (ghost call counters)
 }
 
-func newModSet() *modSet { return &modSet{vars: map[*types.Var]bool{}, heaps: map[string]Sort{}} }
+func newModSet() *modSet {
+	return &modSet{vars: map[*types.Var]bool{}, heaps: map[string]Sort{}, calls: map[string]bool{}}
+}
 
 func (x *Exec) loopOrdinal(s ast.Stmt) int {
 	fr := x.top()
@@ -237,7 +241,7 @@ func (x *Exec) joinLoose(base *State, ss []*State) *State { return x.join(base, 
 func (x *Exec) cutLoop(node ast.Stmt, st *State, cond ast.Expr, post ast.Stmt, body *ast.BlockStmt, rs *rangeSpec, _ *struct{}) flow {
 	invs, dec := x.loopInvs(node)
 	ord := x.loopOrdinal(node)
-	lc := &loopCtx{}
+	lc := &loopCtx{outer: x.curLoop}
 	// ghost index / visited set
 	var idxVar, visVar Term
 	if rs != nil {
@@ -288,24 +292,38 @@ func (x *Exec) cutLoop(node ast.Stmt, st *State, cond ast.Expr, post ast.Stmt, b
 			head.alloc = na
 		}
 	}
-	// ghost call counters and last-error records are unknown at the loop head
-	x.ghostGenN++
-	head.ghostGen = x.ghostGenN
-	if head.ghost != nil {
-		gk := make([]string, 0, len(head.ghost))
-		for k := range head.ghost {
-			gk = append(gk, k)
+	// ghost call counters and last-error records of the functions the body may call are unknown at
+	// the loop head (the others keep their exact value)
+	if mods.all {
+		x.ghostGenN++
+		head.ghostGen = x.ghostGenN
+	}
+	if head.ghost == nil {
+		head.ghost = map[string]Term{}
+	}
+	{
+		var names []string
+		for n := range mods.calls {
+			names = append(names, n)
 		}
-		sort.Strings(gk)
-		for _, k := range gk {
-			switch {
-			case strings.HasPrefix(k, "called:"):
-				f := x.ctx.Fresh("ghostc", SInt)
-				head.assume(mk(SBool, ">=", f, head.ghost[k]))
-				head.ghost[k] = f
-			case strings.HasPrefix(k, "lasterr:"):
-				delete(head.ghost, k)
+		if mods.all {
+			for k := range head.ghost {
+				if strings.HasPrefix(k, "called:") {
+					names = append(names, strings.TrimPrefix(k, "called:"))
+				}
 			}
+		}
+		sort.Strings(names)
+		for _, n := range names {
+			k := "called:" + n
+			prev, ok := head.ghost[k]
+			if !ok {
+				prev = x.ghostDefault(head, k)
+			}
+			f := x.ctx.Fresh("ghostc", SInt)
+			head.assume(mk(SBool, ">=", f, prev))
+			head.ghost[k] = f
+			head.ghost["lasterr:"+n] = x.ctx.Fresh("ghosterr", SInt)
 		}
 	}
 	var vs []*types.Var
@@ -440,7 +458,10 @@ func (x *Exec) cutLoop(node ast.Stmt, st *State, cond ast.Expr, post ast.Stmt, b
 			}
 		}
 		x.loopStack = append(x.loopStack, lc)
+		saveLoop := x.curLoop
+		x.curLoop = lc
 		f := x.execBlock(body.List, bodySt)
+		x.curLoop = saveLoop
 		x.loopStack = x.loopStack[:len(x.loopStack)-1]
 		exits = append(exits, f.brk...)
 		backs := append([]*State{}, f.cont...)
@@ -891,6 +912,8 @@ func (x *Exec) modsOfCall(call *ast.CallExpr, ms *modSet) {
 	if x.isLoggingCall(call) {
 		return
 	}
+	ms.calls[fn.Name()] = true
+	ms.calls[extName(fn)] = true
 	if c := x.w.ByFunc[fn.Origin()]; c != nil {
 		x.modsOfContract(c, call, ms)
 		return
@@ -909,6 +932,9 @@ func (x *Exec) modsOfCall(call *ast.CallExpr, ms *modSet) {
 		x.modDepth--
 		for n, s := range sub.heaps {
 			ms.heaps[n] = s
+		}
+		for n := range sub.calls {
+			ms.calls[n] = true
 		}
 		if sub.all {
 			ms.all = true
